@@ -99,6 +99,22 @@ func growCases(c *corr.Ctx) {
 			}
 			c.Note(fmt.Sprintf("av1: maximum retained bytes on the 'both buffers' stream: %d (MaxTemporalUnitSize %d)", maxRet, av1MaxTU))
 		}
+		// AV1 d: 10 OBUs of 336 KB (6 fragments each) = 3.36 MB > MaxTemporalUnitSize, the last packet
+		// carries the marker: the size cap of the frame buffer must refuse the unit (compared with the model)
+		if long {
+			ps = nil
+			for i := 0; i < 10; i++ {
+				seq++
+				ps = append(ps, hpkt(seq, false, big([]byte{0x50}, 56000, byte(i))))
+				for k := 0; k < 4; k++ {
+					seq++
+					ps = append(ps, hpkt(seq, false, big([]byte{0xd0}, 56000, byte(k))))
+				}
+				seq++
+				ps = append(ps, hpkt(seq, i == 9, big([]byte{0x90}, 56000, byte(i))))
+			}
+			cu.HostileStream(c, Av1, newInst(Av1), ps, true, "av1-fbcap", "10 OBUs, 3.36 MB in total, marker on the last packet")
+		}
 		// VP8: start packet then endless continuation packets
 		ps = nil
 		seq = 65500
